@@ -1,0 +1,15 @@
+//go:build verif
+
+package pathlock
+
+// Contracts for govc, the contract verifier under /verif (see /verif/DESIGN.md).
+// This file contains comments only; it adds no code under any build tag.
+
+// The per-path lock is only meaningful between goroutines; in the sequential executions the verifier considers,
+// Lock never blocks and neither call has an effect visible to the caller (assumed, not verified).
+//@ func (l *Mutex) Lock(path string)
+//@   assumed
+//@   requires l != nil
+//@ func (l *Mutex) Unlock(path string)
+//@   assumed
+//@   requires l != nil
